@@ -31,5 +31,8 @@ package crypto
 //@   callback pick ensures idx[dst] == old(idx[src]) && forall(q, 0, len(idx), q != dst ==> idx[q] == old(idx[q]))
 //@   loop 0 invariant forall(q, 0, n, idx[q] == q)
 //@   loop 1 invariant forall(a, 0, k, 0 <= idx[a] && idx[a] < i) && forall(a, 0, k, forall(b, a+1, k, idx[a] != idx[b])) && forall(q, k, n, idx[q] == q)
+// Algorithm R: element i (i >= k) replaces a uniformly drawn slot j of [0, i], i.e. the draw is from exactly i+1
+// values; this is the hypothesis of the (pencil) uniformity argument and is pinned at the call.
+//@   callsite RandIntn 0 requires arg1 == i+1
 //@   ensures count: result1 == nil ==> (k <= n ==> result0 == k) && (n < k ==> result0 == n)
 //@   ensures distinct: result1 == nil ==> forall(a, 0, result0, 0 <= idx[a] && idx[a] < n) && forall(a, 0, result0, forall(b, a+1, result0, idx[a] != idx[b]))
